@@ -1,0 +1,47 @@
+//go:build verif
+
+package collection
+
+import "encoding/json"
+
+type verifSmOp struct {
+	Op string `json:"op"` // put | del | churn | get | dump
+	K  int    `json:"k"`
+	V  int    `json:"v"`
+	N  int    `json:"n"`
+}
+
+// verifSafeMap interprets a Put/Del/Get history on a real SafeMap. "churn" is n times (Put k k; Del k)
+// with consecutive fresh keys; "dump" reports the internal counters and generation sizes.
+func verifSafeMap(raw json.RawMessage) any {
+	var c struct {
+		Ops []verifSmOp `json:"ops"`
+	}
+	if err := json.Unmarshal(raw, &c); err != nil {
+		return map[string]any{"error": err.Error()}
+	}
+	m := NewSafeMap()
+	res := make([][]int, 0)
+	for _, o := range c.Ops {
+		switch o.Op {
+		case "put":
+			m.Put(o.K, o.V)
+		case "del":
+			m.Del(o.K)
+		case "churn":
+			for i := 0; i < o.N; i++ {
+				m.Put(o.K+i, o.K+i)
+				m.Del(o.K + i)
+			}
+		case "get":
+			if v, ok := m.Get(o.K); ok {
+				res = append(res, []int{v.(int)})
+			} else {
+				res = append(res, []int{-1})
+			}
+		case "dump":
+			res = append(res, []int{m.deletionOld, m.deletionNew, len(m.dirtyOld), len(m.dirtyNew), m.Size()})
+		}
+	}
+	return map[string]any{"res": res}
+}
